@@ -71,8 +71,13 @@ def gen_values(rng, n, shape, big=False, bigint=False):
         return k, kind
     elif kind == 'bigint':
         # integers beyond 2**53: not representable in float64
-        base = 2 ** 60 + 1
-        k = [base + rng.randint(0, 12) for _ in range(n)]
+        if rng.random() < 0.6:
+            base = 2 ** 60 + 1
+            k = [base + rng.randint(0, 12) for _ in range(n)]
+        else:
+            # differences of the order of the spacing of doubles up there (1024 at 2**62): exact in int64, not in float64
+            base = 2 ** 62 + 1
+            k = [base + rng.choice([0, 300, 540, 1000, 1500, 2048, 3000, 4096]) + rng.randint(0, 40) for _ in range(n)]
         return k, kind
     else:
         k = [rng.randint(-20, 40) for _ in range(n)]
@@ -100,6 +105,8 @@ def gen_params(rng, k, n, fb):
         minv = [0, 1]
     elif r < 0.2:
         minv = 'min'
+    elif r < 0.27:
+        minv = [0, 1]           # a threshold of exactly zero (falsy in Python), with whatever signs the data have
     elif r < 0.5:
         minv = [rng.choice(vals), 1]
     elif r < 0.7:
@@ -131,7 +138,13 @@ def gen_crits(rng, k, n):
             elif kind == 'sum':
                 crits.append([kind, rng.choice(vals) * rng.randint(1, 3)])
             elif kind == 'seeds':
-                crits.append([kind, sorted(set(rng.randrange(n) for _ in range(rng.randint(1, 3))))])
+                # seed positions in the order the user happens to list them (not necessarily raster order)
+                sd = []
+                for _ in range(rng.randint(1, 4)):
+                    x = rng.randrange(n)
+                    if x not in sd:
+                        sd.append(x)
+                crits.append([kind, sd])
             else:
                 crits.append([kind, rng.randint(1, 4)])
     return crits
@@ -197,6 +210,7 @@ def gen_compute_case(rng, maxpix=48, force=None):
         axes = [a for a in range(len(shape)) if rng.random() < 0.6]
         case['periodic'] = axes or [rng.randrange(len(shape))]
         case['per_as_list'] = rng.random() < 0.5
+        case['per_negative'] = rng.random() < 0.25      # axes spelled as negative numbers (numpy convention)
     elif r < 0.33:
         case['adj'] = 'diag'
     elif r < 0.40:
